@@ -3893,3 +3893,144 @@ func smudgeFailureLeavesPointer(c *Ctx, rule string) {
 	}
 	c.AtLeast(rule, "Smudge calls in commands.smudge", n, 1)
 }
+
+// indexKeepsEveryPath (C05, C13): the same content can be staged under several paths; the index scan reports a
+// pointer once per path, and path filters (lfs.fetchexclude) are applied per path. indexFileMap.Add therefore
+// appends to the list kept for a blob SHA — it never replaces the list or keeps only the first path.
+func indexKeepsEveryPath(c *Ctx, rule string) {
+	p := c.P
+	fn := p.Fn("lfs", "(*indexFileMap).Add")
+	if fn == nil {
+		c.Missing(rule, "(*lfs.indexFileMap).Add", "not found")
+		return
+	}
+	n := 0
+	for _, b := range fn.Blocks {
+		for _, in := range b.Instrs {
+			mu, ok := in.(*ssa.MapUpdate)
+			if !ok || !strings.Contains(mu.Map.Type().String(), "indexFile") {
+				continue
+			}
+			n++
+			good := false
+			if ac, ok := mu.Value.(*ssa.Call); ok {
+				if bi, isB := ac.Call.Value.(*ssa.Builtin); isB && bi.Name() == "append" {
+					if lk, ok := ac.Call.Args[0].(*ssa.Lookup); ok && SameValue(lk.Index, mu.Key) {
+						good = true
+					}
+				}
+			}
+			c.Check(good, rule, "index-map:appends-per-sha", p.InstrPos(mu), "a further path of the same blob is appended to the list for its SHA",
+				"indexFileMap.Add does not append to the list kept for a blob: content staged under two paths is reported under one of them only, and with lfs.fetchexclude matching that one prune deletes an object the index still needs")
+		}
+	}
+	c.AtLeast(rule, "updates of the SHA map in indexFileMap.Add", n, 1)
+}
+
+// gitDateHasNumericZone (C05): the cut-off of the recent-commits window is handed to `git log --since=` as text.
+// Zone abbreviations are ambiguous (Git reads CST as -0600 wherever the user is), so the layout used to print the
+// date carries a numeric offset.
+func gitDateHasNumericZone(c *Ctx, rule string) {
+	p := c.P
+	fn := p.Fn("git", "FormatGitDate")
+	if fn == nil {
+		c.Missing(rule, "git.FormatGitDate", "not found")
+		return
+	}
+	n := 0
+	for _, ci := range CallsIn(fn, "(time.Time).Format", "(time.Time).AppendFormat") {
+		a := CallArgs(ci.Common())
+		n++
+		layout, ok := ConstString(a[len(a)-1])
+		good := ok && (strings.Contains(layout, "-0700") || strings.Contains(layout, "-07:00") || strings.Contains(layout, "Z07")) && !strings.Contains(layout, "MST")
+		c.Check(good, rule, "git-date:numeric-zone", p.InstrPos(ci), "dates are printed with a numeric UTC offset",
+			"FormatGitDate prints the time zone as an abbreviation (or not at all): Git resolves abbreviations by its own table, the --since cut-off of the recent-commits scan moves by hours, and objects inside the retention window are pruned")
+	}
+	c.AtLeast(rule, "date formats in FormatGitDate", n, 1)
+}
+
+// deliveryInOneCriticalSection (C06): marking an OID completed and notifying the watchers of every Add of that OID
+// happen under one hold of the transfers mutex. If the mutex is released in between, an Add that arrives in the gap
+// is neither delivered (not in the snapshot) nor enqueued (not completed yet) — and the flag may land on a stale
+// entry.
+func deliveryInOneCriticalSection(c *Ctx, rule string) {
+	p := c.P
+	fn := p.Fn("tq", "(*TransferQueue).handleTransferResult")
+	if fn == nil {
+		c.Missing(rule, "(*tq.TransferQueue).handleTransferResult", "not found")
+		return
+	}
+	var locks, unlocks []ssa.Instruction
+	for _, b := range fn.Blocks {
+		for _, in := range b.Instrs {
+			if isFieldMethodCall(in, "tq.TransferQueue", "trMutex", "Lock") {
+				locks = append(locks, in)
+			}
+			if isFieldMethodCall(in, "tq.TransferQueue", "trMutex", "Unlock") {
+				unlocks = append(unlocks, in)
+			}
+		}
+	}
+	var marks, sends []ssa.Instruction
+	for _, b := range fn.Blocks {
+		for _, in := range b.Instrs {
+			if st, ok := in.(*ssa.Store); ok {
+				if fa, ok := st.Addr.(*ssa.FieldAddr); ok {
+					if tn, f := fieldAddrName(fa); tn == "tq.objects" && f == "completed" {
+						marks = append(marks, in)
+					}
+				}
+			}
+			if sd, ok := in.(*ssa.Send); ok && strings.Contains(sd.Chan.Type().String(), "tq.Transfer") {
+				sends = append(sends, in)
+			}
+		}
+	}
+	good := len(marks) > 0 && len(sends) > 0
+	for _, mk := range marks {
+		// the lock that is held at the mark
+		var held ssa.Instruction
+		for _, l := range locks {
+			if l.Block().Dominates(mk.Block()) && after(l, mk) {
+				held = l
+			}
+		}
+		if held == nil {
+			good = false
+			continue
+		}
+		for _, s := range sends {
+			if !(after(held, s)) {
+				good = false
+			}
+			for _, u := range unlocks {
+				// released between the lock and the mark, or between the lock and a delivery
+				if after(held, u) && (after(u, mk) || after(u, s)) {
+					good = false
+				}
+			}
+		}
+	}
+	c.Check(good, rule, "deliver:mark-and-notify-under-one-lock", p.Pos(fn.Pos()), "completed is set and the watchers are notified under one hold of trMutex",
+		"handleTransferResult releases trMutex between marking an OID completed and notifying the watchers: a duplicate Add arriving in the gap is neither delivered nor transferred, and Wait() returns without it")
+}
+
+// copyHelperReadsToEnd (C08, C01): tools.CopyWithCallback copies its reader to the end. The size it is given is a
+// hint for progress reporting (in clean it is the size of the file at the named path, not of the stream): the
+// reader is not wrapped in a length-limited reader.
+func copyHelperReadsToEnd(c *Ctx, rule string) {
+	p := c.P
+	fn := p.Fn("tools", "CopyWithCallback")
+	if fn == nil {
+		c.Missing(rule, "tools.CopyWithCallback", "not found")
+		return
+	}
+	n := 0
+	for _, f := range WithAnon(fn) {
+		n++
+		for _, ci := range CallsIn(f, "io.LimitReader", "io.CopyN", "io.NewSectionReader") {
+			c.Bad(rule, "copy-with-callback:reads-to-the-end", p.InstrPos(ci), "tools.CopyWithCallback limits how much of its source it copies by the size hint: clean stores a stream only up to the length of the file at the named path and drops the rest")
+		}
+	}
+	c.Check(n > 0, rule, "copy-with-callback:no-length-limit", p.Pos(fn.Pos()), "the source is copied until it ends", "tools.CopyWithCallback not analysed")
+}
